@@ -31,6 +31,7 @@ THEOREMS = ['Props.C14.' + t for t in [
     'single_potential_r1', 'single_potential_r2', 'single_potential_r3',
     'region_classifier_one', 'region_classifier_two', 'region_classifier_three', 'region_classifier_none',
     'region_classifier_total', 'region_equation_valid',
+    'sat_root', 'tsat_root', 'sat_tsat_inverse_partial', 'tsat_outside_range', 'visc_pos', 'b23_near_inverse',
 ]]
 LEVEL_TEXT = ''
 LEVEL_NOTE = ''
@@ -636,6 +637,23 @@ def run(ctx, scale=1.0, oracle_only=False):
                     f2['disagreements'] += 1
                     res.disagreements.append(dict(facet='power_array', case={'chain': nm}, model='chainWF false', impl='module chain'))
             res.hyp['chainWF (hypothesis of power_array_eq_zpow) on the chains fed to power_array'] = [nwf, len(preqs)]
+            # concrete Float witness of the critical-end failure of the inverse (known finding), model and real code
+            f3 = res.facet('critical_end_witness')
+            tcv = float(I.tcritical)
+            w1 = call(I.sat, tcv)
+            wl = ['sat ' + bits(tcv)]
+            if w1.startswith('num'):
+                wl.append('tsat ' + w1.split()[1])
+            wo = core.run_driver('drv_c14', wl)
+            wi = [w1] + ([call(I.tsat, unbits(w1.split()[1]))] if len(wl) > 1 else [])
+            for a, b in zip(wi, wo):
+                f3['cases'] += 1
+                if not same(a, b):
+                    f3['disagreements'] += 1
+                    res.disagreements.append(dict(facet='critical_end_witness', case={'t': tcv}, model=b, impl=a))
+            if len(wo) > 1:
+                res.sample({'witness': 'critical end', 't': tcv, 'model sat(tcritical)': unbits(wo[0].split()[1]) if wo[0].startswith('num') else wo[0],
+                            'pcritical': float(I.pcritical), 'model tsat(sat(tcritical))': wo[1], 'impl tsat(sat(tcritical))': wi[1]}, cap=12)
     # ---------------- oracle ----------------
     oracle(ctx, I, res, rng, scale)
     return res
